@@ -39,7 +39,7 @@ SYM = ["E", "I", "S", "N", "O", "Q", "pi", "zoo", "oo", "nan", "beta", "gamma", 
 DFORM = ["dfoo_dt", "d_dt", "dx_dt2", "ddx_dt_dt", "dy_dt_x", "d2", "dt_dt"]
 GRAM = ["states", "parameters", "expressions", "component", "Conditional", "ContinuousConditional", "ScalarParam", "unit", "description", "And", "Or", "Not", "Gt", "Ge", "Le", "ln", "acos", "e", "E1", "e2", "x1e5"]
 import string
-LETTERS = list(string.ascii_lowercase) + list(string.ascii_uppercase) + ["_", "__", "_x", "x_", "n0", "N_"]
+LETTERS = list(string.ascii_lowercase) + list(string.ascii_uppercase) + ["_", "__", "_x", "x_", "n0", "N_", "x0", "x1", "x2", "x3", "_0", "tmp", "tmp0", "cse0"]
 FRESH = {"state": "fresh_s", "parameter": "fresh_p", "intermediate": "fresh_i"}
 
 
@@ -55,6 +55,17 @@ def alphabet():
 
 def template(role, ident, variant="plain"):
     n, v = L.num, L.var
+    if variant == "cse":
+        # an assignment with a repeated sub-expression that does not mention the identifier, evaluated before the identifier is read
+        names = {"state": "x", "parameter": "p", "intermediate": "i"}
+        names[role] = ident
+        x, p, i = names["state"], names["parameter"], names["intermediate"]
+        eqy = L.call("exp", L.bin_("*", v("q"), v("y")))
+        assigns = [("gate", L.bin_("/", eqy, L.bin_("+", n("1.0"), eqy))), (i, L.bin_("+", L.bin_("*", n("0.5"), v(x)), v(p))),
+                   ("gate2", L.bin_("*", L.call("sin", L.bin_("+", v("y"), v("q"))), L.bin_("+", n("2"), L.call("sin", L.bin_("+", v("y"), v("q")))))),
+                   (f"d{x}_dt", L.bin_("-", L.bin_("*", v("gate"), v(i)), L.bin_("*", v(x), v("y")))),
+                   ("dy_dt", L.bin_("-", L.bin_("*", v(p), v(x)), L.bin_("*", L.bin_("*", n("0.75"), v("y")), v("gate2"))))]
+        return models.spec([(x, n("1.0")), ("y", n("2.0"))], [(p, n("0.5")), ("q", n("1.5"))], assigns)
     if variant == "cond":
         # every assignment is a top-level Conditional (the printers have a dedicated path for `name = Piecewise(...)`)
         names = {"state": "x", "parameter": "p", "intermediate": "i"}
@@ -196,6 +207,40 @@ def run_item(item):
             fail("silently-different", diff)
         res["outcomes"].append(f"{backend}:{'differs' if diff else 'equal'}")
         if backend == "numpy" and not diff and variant == "plain":
+            # rhs / monitor_values generated through the CodeGenerator API with use_cse=True (temporaries must not collide with model names)
+            try:
+                from gotranx.codegen import PythonCodeGenerator
+                from gotranx.codegen.python import Format as PF
+                outs = []
+                for sp_, r_, c_ in ((template(role, ident, "cse"), None, cm), (template(role, FRESH[role], "cse"), None, canon_map(role, FRESH[role]))):
+                    r_ = r_ or models.Ref(sp_)
+                    ode_ = drive.load(models.spec_text(sp_))
+                    cg = PythonCodeGenerator(ode_, format=PF.none)
+                    ns_ = {}
+                    exec("\n".join([cg.imports(), cg.parameter_index(), cg.state_index(), cg.monitor_index(), cg.rhs(use_cse=True), cg.monitor_values(use_cse=True)]), ns_)
+                    vals_ = {}
+                    for pt in GRID[::4]:
+                        S = numpy.zeros(len(ns_["state"]))
+                        for n_, i_ in ns_["state"].items():
+                            S[i_] = pt[c_.get(n_, n_)]
+                        P = numpy.zeros(len(ns_["parameter"]))
+                        for n_, i_ in ns_["parameter"].items():
+                            P[i_] = pt[c_.get(n_, n_)]
+                        with numpy.errstate(all="ignore"):
+                            rr, mm = ns_["rhs"](pt["t"], S, P), ns_["monitor_values"](pt["t"], S, P)
+                        for n_, i_ in ns_["state"].items():
+                            vals_.setdefault(("rhs", c_.get(n_, n_)), []).append(float(rr[i_]))
+                        for n_, i_ in ns_["monitor"].items():
+                            vals_.setdefault(("monitor", c_.get(n_, n_)), []).append(float(mm[i_]))
+                    outs.append(vals_)
+                a_, b_ = outs
+                for k_ in b_:
+                    res["evaluations"] += 1
+                    if k_ not in a_ or any(not (u_ == v_ or (u_ != u_ and v_ != v_) or abs(u_ - v_) <= 1e-12 * max(1.0, abs(v_))) for u_, v_ in zip(a_[k_], b_[k_])):
+                        fail("silently-different-use_cse", f"{k_[0]}[{k_[1]}] generated with use_cse=True differs from the model with the fresh name")
+                        break
+            except Exception as ex:
+                fail("run-time-exception-use_cse", f"use_cse=True: {type(ex).__name__}: {' '.join(str(ex).split())[:140]}")
             # the shape option changes the generated prologue of monitor_values: same comparison under shape=single / multiple
             for shp in ("single", "multiple"):
                 try:
